@@ -354,6 +354,9 @@ class Ctx:
                 lines.append("VIOLATION property=%s replay=%s" % (self.pid, path))
             nviol = len(self.violations)
             rc = 1
+            if os.environ.get("TV_DEBUG"):
+                for kind, what, rep in self.violations:
+                    print("DEBUG", what[:160], "|", json.dumps(rep.get("case"))[:300])
         elif not self.proof_ok or not self.corr_ok:
             rep = {}
             if not self.proof_ok:
